@@ -1,6 +1,7 @@
 package c16
 
 import (
+	"github.com/bronlabs/bron-crypto/pkg/base/serde"
 	"bytes"
 	"crypto/sha256"
 	"encoding/hex"
@@ -588,6 +589,33 @@ func egKeyCases[E elgamal.FiniteCyclicGroupElement[E, S], S algebra.PrimeFieldEl
 				}
 				if !c1.Equal(c2) {
 					bad3 = append(bad3, in)
+				}
+			}
+		}
+		// the object returned by Public() is the caller's: decoding another party's key into it must not reach the secret key
+		if g.v.Cmp(bi(1)) == 0 {
+			x.Case(fmt.Sprintf("%s/key/%s/%s/public-is-a-copy", c.name, g.name, a.name))
+			before, e0 := c.refKey(sk.Public().Value())
+			otherSK, eo := elgamal.NewSecretKey(c.group.Generator(), c.sc(new(big.Int).Add(a.v, bi(5))))
+			if e0 == nil && eo == nil {
+				enc, ee := serde.MarshalCBOR(otherSK.Public())
+				mine := sk.Public()
+				if ee == nil {
+					if _, ed := guard(func() (int, error) { return 0, mine.UnmarshalCBOR(enc) }); ed == nil {
+						after, e1 := c.refKey(sk.Public().Value())
+						me := c.baseMul(bi(7))
+						pt, _ := elgamal.NewPlaintext(me)
+						n, _ := elgamal.NewNonce(c.sc(bi(3)))
+						ct, e2 := guard(func() (*elgamal.Ciphertext[E, S], error) { return sk.Public().EncryptWithNonce(pt, n) })
+						var okDec bool
+						if e2 == nil {
+							d, e3 := guard(func() (*elgamal.Plaintext[E, S], error) { return sk.Decrypt(ct) })
+							okDec = e3 == nil && d.Value().Equal(me)
+						}
+						if e1 != nil || after != before || !okDec {
+							x.Failf("elgamal/key/public-aliases-secret-key", "%s: after decoding another public key into the object returned by sk.Public(), the secret key's own public key changed (%s -> %s) / it no longer decrypts what sk.Public() encrypts (%v)", c.name, before, after, okDec)
+						}
+					}
 				}
 			}
 		}
